@@ -76,7 +76,7 @@ void conf_register(int count, int override_null)
 static int ref_max_depth, ref_include_depth, ref_max_include;
 static int ref_open_idx;        /* number of fopen attempts so far (fault script cursor) */
 static const op_t *ref_faults;
-static int ref_unknown, ref_surplus_end, ref_eof_nonl, ref_include_fail, ref_overlong;
+static int ref_unknown, ref_surplus_end, ref_eof_nonl, ref_include_fail, ref_overlong, ref_unreadable, ref_empty_file;
 
 static unsigned long ref_call(int id, int kind, const char *text, unsigned long sin)
 {
@@ -96,7 +96,7 @@ static int ref_open_ok(void)
     int k = 0;
     for (int i = 0; i < ref_faults->nf; i++) {
         if (F_CALL(ref_faults->f[i]) != FC_OPEN) continue;
-        if (k++ == ref_open_idx) { ref_open_idx++; return F_OUT(ref_faults->f[i]) == FO_FULL; }
+        if (k++ == ref_open_idx) { ref_open_idx++; return F_OUT(ref_faults->f[i]) != FO_FULL ? 0 : F_PARAM(ref_faults->f[i]) == 1 ? 2 : 1; }
     }
     ref_open_idx++;
     return 1;
@@ -161,9 +161,11 @@ static void ref_file(const char *path, int is_root)
 {
     const unsigned char *data; size_t len, pos = 0;
     char line[512];
-    int first = 1;
-    if (!ref_open_ok()) { ref_include_fail++; return; }
-    if (!conf_tree_get(path, &data, &len)) { ref_include_fail++; return; }
+    int first = 1, how;
+    if (!(how = ref_open_ok())) { ref_include_fail++; return; }
+    if (!conf_tree_get(path, &data, &len)) { ref_include_fail++; return; }     /* absent, or a directory: nothing can be read from it */
+    if (how == 2) { ref_include_fail++; ref_unreadable++; return; }              /* opened but unreadable: no first line, so rejected */
+    if (!len) ref_empty_file++;
     if (!is_root) { ref_include_depth++; if (ref_include_depth > ref_max_include) ref_max_include = ref_include_depth; }
     while (pos < len) {
         size_t e = pos, n;
@@ -256,7 +258,7 @@ static void exec_c09(const plan_t *p)
             /* reference first (it only reads the tree), then the real parser */
             depth = entry_ctx; ref_faults = o; ref_open_idx = 0;
             ref_max_depth = ref_max_include = ref_include_depth = 0;
-            ref_unknown = ref_surplus_end = ref_eof_nonl = ref_include_fail = 0;
+            ref_unknown = ref_surplus_end = ref_eof_nonl = ref_include_fail = ref_unreadable = ref_empty_file = 0;
             {
                 unsigned long save = tok_counter;
                 int ng = ngot;
@@ -285,6 +287,8 @@ static void exec_c09(const plan_t *p)
             if (ref_surplus_end) probe_hit("surplus_end");
             if (ref_eof_nonl) probe_hit("eof_without_newline");
             if (ref_include_fail) probe_hit("include_open_failed");
+            if (ref_unreadable) probe_hit("file_opened_but_unreadable");
+            if (ref_empty_file) probe_hit("empty_file");
             if (!balanced) probe_hit("unbalanced_input");
             sim_free(name);
         }
@@ -354,6 +358,7 @@ static void gen_c09(plan_t *p, rng_t *r)
         snprintf(nm, sizeof(nm), k == 2 ? "sub/s%d.cfg" : "f%d.cfg", k);
         o = plan_op(p, 0, "file", 0); op_str(o, nm, strlen(nm)); op_str2(o, gbuf, gbuf_len);
     }
+    o = plan_op(p, 0, "file", 0); op_str(o, "empty.cfg", 9); op_str2(o, "", 0);
     /* root */
     gb_reset();
     gb_add("<simrun-1.0>\n");
@@ -367,7 +372,7 @@ static void gen_c09(plan_t *p, rng_t *r)
         else if (c < 76) { gb_add(rng_chance(r, 1, 4) ? "end junk here\n" : rng_chance(r, 1, 5) ? "  END\n" : "end\n"); if (open_depth) open_depth--; }
         else if (c < 82) gb_add("# a comment %d\n", q);
         else if (c < 86) gb_add(rng_chance(r, 1, 2) ? "\n" : "   \n");
-        else if (c < 94) gb_add("%%include %s\n", rng_chance(r, 1, 8) ? "missing.cfg" : rng_chance(r, 1, 3) ? "sub/s2.cfg" : rng_chance(r, 1, 2) ? "f0.cfg" : "f1.cfg");
+        else if (c < 94) gb_add("%%include %s\n", rng_chance(r, 1, 8) ? "missing.cfg" : rng_chance(r, 1, 10) ? "empty.cfg" : rng_chance(r, 1, 12) ? "sub" : rng_chance(r, 1, 3) ? "sub/s2.cfg" : rng_chance(r, 1, 2) ? "f0.cfg" : "f1.cfg");
         else gb_add("<ignored line\n");
     }
     if (rng_chance(r, 2, 3)) while (open_depth-- > 0) gb_add("end\n");
@@ -377,7 +382,8 @@ static void gen_c09(plan_t *p, rng_t *r)
     { int nf = rng_range(r, 0, 6);
       for (int q = 0; q < nf; q++) {
           if (rng_chance(r, 1, 2)) { static const int lims[] = { 1, 2, 7, 100, 4095, 4096 }; op_fault(o, FAULT(FC_READ, FO_SHORT, lims[rng_below(r, 6)])); }
-          else { static const int outs[] = { FO_FULL, FO_FULL, FO_FULL, FO_ENOENT, FO_EMFILE, FO_EACCES }; op_fault(o, FAULT(FC_OPEN, outs[rng_below(r, q == 0 ? 3 : 6)], 0)); }
+          else { static const int outs[] = { FO_FULL, FO_FULL, FO_FULL, FO_ENOENT, FO_EMFILE, FO_EACCES }; int out = outs[rng_below(r, q == 0 ? 3 : 6)];
+                 op_fault(o, FAULT(FC_OPEN, out, out == FO_FULL && rng_chance(r, 1, 3) ? 1 : 0)); }
       } }
     if (rng_chance(r, 1, 6)) { o = plan_op(p, 0, "parse", 1, 0L); op_str(o, "root.cfg", 8); }
     (void)nfiles;
